@@ -185,7 +185,7 @@ class assert_in(RuntimeAssertionFeedback):
 
     def condition(self, needle, haystack):
         """ Tests if the needle is not in the haystack """
-        return needle.value not in haystack.value
+        return unwrap_value(needle.value) not in haystack.value
 
 
 class assert_not_in(RuntimeAssertionFeedback):
@@ -201,7 +201,7 @@ class assert_not_in(RuntimeAssertionFeedback):
 
     def condition(self, needle, haystack):
         """ Tests if the needle is in the haystack """
-        return needle.value in haystack.value
+        return unwrap_value(needle.value) in haystack.value
 
 
 class assert_contains_subset(RuntimeAssertionFeedback):
